@@ -2,6 +2,7 @@ package zoo
 
 import (
 	"fmt"
+	"reflect"
 
 	structform "github.com/elastic/go-structform"
 	"github.com/elastic/go-structform/gotype"
@@ -63,4 +64,70 @@ func (s *recState) OnObjectFinished(ctx gotype.UnfoldCtx) error {
 func (s *recState) OnKey(ctx gotype.UnfoldCtx, k string) error {
 	s.r.Log = append(s.r.Log, fmt.Sprintf("key:%q", k))
 	return nil
+}
+
+// ---------------------------------------------------------------------------
+// Targets for the three kinds of user unfolders of gotype.Unfolders (used
+// differentially only: an unfolder configured with them must treat a document
+// the same way whatever it has done before).
+
+// Pct: primitive unfolder (the number is scaled; values above 1000 are refused).
+type Pct int
+
+func unfoldPct(to *Pct, v int64) error {
+	if v > 1000 || v < -1000 {
+		return fmt.Errorf("zoo: %d is out of range for Pct", v)
+	}
+	*to = Pct(v * 10)
+	return nil
+}
+
+// Proc: processing unfolder whose cell is the target itself ("reuse the cell
+// and post-process").
+type Proc struct {
+	V    int
+	Note string
+}
+
+func unfoldProc(to *Proc) (interface{}, func(*Proc, interface{}) error) {
+	return to, func(to *Proc, _ interface{}) error {
+		if to.V > 100 {
+			to.V = 100
+		}
+		to.Note += "!"
+		return nil
+	}
+}
+
+// Stateful: state unfolder registered as a function (Recorder is the Expander variant).
+type Stateful struct {
+	Log   []string
+	depth int
+}
+
+func unfoldStateful(to *Stateful) gotype.UnfoldState {
+	return &recState{r: (*Recorder)(to)}
+}
+
+// UserUnfolders is the argument list for gotype.Unfolders.
+func UserUnfolders() []interface{} { return []interface{}{unfoldPct, unfoldProc, unfoldStateful} }
+
+type WithUser struct {
+	Soft *Proc
+	Hard Proc
+	P    Pct
+	S    Stateful
+	Z    int
+}
+
+// UserTargets are target types that reach the user unfolders (no []*T /
+// map[K]*T element types: the library's handling of those is a known,
+// unclaimed defect area).
+var UserTargets = []reflect.Type{
+	reflect.TypeOf(Pct(0)), reflect.TypeOf((*Pct)(nil)), reflect.TypeOf(Proc{}), reflect.TypeOf((*Proc)(nil)),
+	reflect.TypeOf(WithUser{}), reflect.TypeOf([]Proc{}), reflect.TypeOf(map[string]Proc{}), reflect.TypeOf(map[string]Pct{}),
+	reflect.TypeOf(Stateful{}), reflect.TypeOf(struct {
+		S Stateful
+		Z int
+	}{}), reflect.TypeOf(struct{ Soft *Proc }{}), reflect.TypeOf([]Pct{}),
 }
